@@ -19,7 +19,10 @@ CLAIM = {
             "caller removes the adds and adds the removes); (R14.3) because one backward arm resets "
             "closing_outpoints wholesale while others unwrap it, the undo loop in on_remove_block_end must consume "
             "the change list in reverse order; (R14.4) notify_listeners_remove is the mirror image of "
-            "notify_listeners_add on ListenSlot.watches/seen; swept-height bookkeeping is mirrored. Does not decide "
+            "notify_listeners_add on ListenSlot.watches/seen; swept-height bookkeeping is mirrored; (R14.7) in both "
+            "directions the watch set inserts one list of the listener's (adds, removes) result before it drops the "
+            "other (roles: connect inserts adds/drops removes/remembers removes as seen, disconnect the reverse), so "
+            "an outpoint created and spent inside one block nets out. Does not decide "
             "equality with a fresh replay over all block histories nor general panic-freedom.",
     "note": "rustc MIR; symmetry is compared per match arm over field writes, mutator calls and Vec::push sites "
             "including closures called from the arm",
@@ -46,6 +49,7 @@ def run(ctx):
     r144(ctx)
     r145(ctx)
     r146(ctx)
+    r147(ctx)
 
 
 def arms(ctx, body, variants):
@@ -372,3 +376,55 @@ def r146(ctx):
                f"{found[1][:2] if found else ''} via {' -> '.join(x.rsplit('::', 1)[-1] for x in (found[0] if found else []))}: "
                f"re-deriving the change from the post-block state on disconnect will not reproduce it, so the undo is skipped",
                where=f"{rb.file}:{rb.line}", sample=f"{len(seen)} functions reachable, none reads {sorted(F)[:3]}...")
+
+
+def r147(ctx):
+    ctx.rule("R14.7", "the tracker's watch set follows the listener's (adds, removes) symmetrically: connect = insert adds, "
+                      "then drop removes (and remember them as seen); disconnect = re-insert removes (and forget them as "
+                      "seen), then drop adds - insertion before removal in both, so an outpoint created and spent in "
+                      "one block nets out")
+    p = ctx.prog
+    TR = LS + "chain::tracker::ChainTracker::<L>"
+    want = {"notify_listeners_add": {"insert": "0", "remove": "1", "seen": ("insert", "1")},
+            "notify_listeners_remove": {"insert": "1", "remove": "0", "seen": ("remove", "1")}}
+    for fn, w in want.items():
+        b = p.fn(f"{TR}::{fn}")
+        fv = fnview(ctx, b, policy=False)
+        loops = R.loops_over(fv, lambda x: "listeners" in x)
+        ctx.ob("R14.7", len(loops) == 1, f"{b.name}/listener-loop", f"{len(loops)} loops over the listeners", where=f"{b.file}:{b.line}")
+        if len(loops) != 1:
+            continue
+        h = loops[0][0]
+        ops = {"watches": {"insert": [], "remove": []}, "seen": {"insert": [], "remove": []}}
+        for bi, c in b.calls():
+            nm = c.callee.name if c.callee else ""
+            kind = "insert" if (nm.endswith("::extend") or nm.endswith("::insert")) else ("remove" if nm.endswith("::remove") else None)
+            if kind is None or "BTreeSet" not in nm or len(c.args) < 2:
+                continue
+            recv = fv.expr(c.args[0])
+            fld = [x[3] for x in subexprs(recv) if x[0] == "field" and x[2].endswith("ListenSlot")]
+            if not fld or fld[0] not in ops:
+                continue
+            src = [x[3] for x in subexprs(fv.expr(c.args[1])) if x[0] == "field" and x[2] == "()" and x[3] in ("0", "1")]
+            ops[fld[0]][kind].append((bi, c.line, src[0] if src else "?"))
+        ins, rem = ops["watches"]["insert"], ops["watches"]["remove"]
+        ctx.ob("R14.7", len(ins) >= 1 and len(rem) >= 1, f"{b.name}/watch-updates", f"watch insertions {ins}, removals {rem}",
+               where=f"{b.file}:{b.line}")
+        ctx.ob("R14.7", all(s_ == w["insert"] for _, _, s_ in ins) and all(s_ == w["remove"] for _, _, s_ in rem),
+               f"{b.name}/roles", f"{fn}: inserts list {[s_ for _, _, s_ in ins]} and drops list {[s_ for _, _, s_ in rem]} of the "
+               f"listener's (adds, removes) result (expected insert .{w['insert']}, drop .{w['remove']})", where=f"{b.file}:{b.line}",
+               sample=f"insert .{w['insert']} / drop .{w['remove']}")
+        # insertion strictly before removal within one listener iteration
+        late = []
+        for bi, ln, _ in rem:
+            for t in b.term(bi).targets[:1]:
+                live = fv.reach(t, cut_nodes={h})
+                late += [(ln, l2) for b2, l2, _ in ins if b2 in live]
+        ctx.ob("R14.7", not late, f"{b.name}/insert-before-remove",
+               f"{fn} drops watched outpoints (line {late[0][0] if late else 0}) before inserting the other list (line "
+               f"{late[0][1] if late else 0}): an outpoint that the block both created and spent stays watched",
+               where=f"{b.file}:{late[0][0] if late else b.line}", sample="watches.extend(..) precedes every watches.remove(..)")
+        sk, sidx = w["seen"]
+        got = ops["seen"][sk]
+        ctx.ob("R14.7", len(got) >= 1 and all(s_ == sidx for _, _, s_ in got) and not ops["seen"]["remove" if sk == "insert" else "insert"],
+               f"{b.name}/seen", f"{fn}: seen-set updates {ops['seen']}", where=f"{b.file}:{b.line}", sample=f"seen.{sk}(.{sidx})")
